@@ -166,10 +166,7 @@ Proof.
     destruct o1; split; cbn [fst snd]; auto.
     pose proof E2 as [O2 [K2 [R2 [W2 T2]]]].
     cbn [s_wrec with_r]. rewrite R2, W2. apply eqv_with_w. apply eqv_with_r. exact E2. }
-  destruct (aget fd (s_rtok a)), (aget fd (s_rtok b));
-    try destruct (aget fd (s_wtok a)); try destruct (aget fd (s_wtok b));
-    apply FIN; try exact H; try (apply eqv_with_r; exact H); try (apply eqv_with_w; exact H);
-    repeat split; cbn [s_open s_kern s_rrec s_wrec s_tags with_r with_w]; auto.
+  cbv zeta. apply FIN. apply eqv_with_w. apply eqv_with_r. exact H.
 Qed.
 
 Lemma agree_del_event : forall a b i fd, eqv a b -> agree (del_event a i fd) (del_event b i fd).
